@@ -112,6 +112,10 @@ class Universe:
         s = {"op": op, "path": comps, "path_s": "c/" + rel}
         return s
 
+    def restart_step(self):
+        """a new process starts (empty registry) on the directory as it is"""
+        return {"op": "restart", "path": [], "path_s": ""}
+
     def tla_types(self):
         keys = ["name", "ident", "exportable", "out", "visits", "renderOk", "rendered", "nameCodes", "gnameCodes"]
         return {t["name"]: {k: t[k] for k in keys} for t in self.types.values()}
@@ -205,6 +209,8 @@ def harness_history(u, hid, steps, init_kind):
             hs.append({"op": "put", "kind": "file", "path": s["path_s"]})
         elif s["op"] == "rm":
             hs.append({"op": "rm", "path": s["path_s"]})
+        elif s["op"] == "restart":
+            hs.append({"op": "restart"})
         elif s["op"] in ("swapout", "swapin"):
             hs.append({"op": s["op"], "path": s["path_s"], "aside": "c/aside/" + s["path_s"].split("/")[-1]})
     init = []
